@@ -34,9 +34,12 @@ func init() {
 	register(&PropCheck{
 		ID:   "C01",
 		Dirs: []string{"z80"},
-		Jobs: func(tier string, seed int64) []Job { return stepJobs(allEncodings(), "VStep") },
+		Jobs: func(tier string, seed int64) []Job {
+			// every encoding from every pre-state - also with a refused maskable request pending
+			return append(stepJobs(allEncodings(), "VStep"), stepJobs(allEncodings(), "VStepRefused")...)
+		},
 		Only: func(job Job, a string) bool {
-			return inSet(a, "A", "F", "BC", "DE", "HL", "alt", "IX", "IY", "SP", "PC", "I", "IFF1", "IFF2", "IM", "HALT", "intr", "mem", "portcount", "ports", "nopanic", "unsupported")
+			return inSet(a, "A", "F", "BC", "DE", "HL", "alt", "IX", "IY", "SP", "PC", "I", "IFF1", "IFF2", "IM", "HALT", "intr", "mem", "portcount", "ports", "nopanic", "unsupported", "pending")
 		},
 		Post: func(c *CheckCtx) {
 			// translator validation of the encoder itself (not of the property)
@@ -185,6 +188,8 @@ func init() {
 				nilio = allEncodings()
 			}
 			jobs = append(jobs, stepJobs(nilio, "VC05NilIO")...)
+			// with a refused maskable request pending the Step makes the same accesses
+			jobs = append(jobs, stepJobs(allEncodings(), "VStepRefused")...)
 			// the same instruction again on the same CPU object but on entirely fresh memory:
 			// every byte is read again (nothing about memory is remembered between Steps)
 			for _, x := range allEncodings() {
@@ -207,6 +212,8 @@ func init() {
 		Dirs: []string{"z80"},
 		Jobs: func(tier string, seed int64) []Job {
 			jobs := stepJobs(allEncodings(), "VStep")
+			// a refused maskable request pending does not change the count
+			jobs = append(jobs, stepJobs(allEncodings(), "VStepRefused")...)
 			for k := 1; k <= 3; k++ {
 				jobs = append(jobs, Job{Dir: "z80", Harness: "VC14Halted", Params: []int{k}, Label: fmt.Sprintf("VC14Halted/k%d", k)})
 			}
@@ -218,7 +225,7 @@ func init() {
 			return jobs
 		},
 		Only: func(job Job, a string) bool {
-			if job.Harness != "VStep" {
+			if job.Harness != "VStep" && job.Harness != "VStepRefused" {
 				return true
 			}
 			if inSet(a, "R", "I", "unsupported") {
@@ -366,7 +373,7 @@ func init() {
 			for r := 0; r < 3; r++ {
 				mk("VC06IM0CALL", fmt.Sprintf("call/region%d", r), r)
 			}
-			refused := reprEncs()
+			refused := append(reprEncs(), encsOf("ctl", "ir")...)
 			if tier == "thorough" {
 				refused = allEncodings()
 			}
@@ -708,7 +715,7 @@ func init() {
 			}
 			for kind := 0; kind <= 13; kind++ {
 				for at := 0; at <= maxAt; at++ {
-					for mode := 0; mode <= 2; mode++ {
+					for mode := 0; mode <= 3; mode++ {
 						if mode > 0 && !(kind == 0 || kind == 3 || kind == 13) {
 							continue
 						}
@@ -843,6 +850,7 @@ func init() {
 			for kinds := 0; kinds <= 3; kinds++ {
 				mk("VC18Reconfig", kinds)
 			}
+			mk("VC18Volume")
 			return jobs
 		},
 		Bounds: map[string]interface{}{"steps": "<= 10+6n (n <= 3, thorough 5) per call", "symbolic": "call site anywhere outside the BIOS pages, SP, all registers, the whole program area, string address and bytes (any value but '$', 0x00 and >= 0x80 included)", "strings": "length 0..3 (thorough 5) end to end; longer only via the per-character lemma at the loop head 0xFE14 + induction (paper step)"},
